@@ -82,7 +82,6 @@ MUTANTS = [
       ("                yield extractor.get_token(m)\n\n    @property", "                yield extractor.get_token(m, offset=start)\n\n    @property")], None, ["C14"]),
     ("hs-cache-only-invalid-error", "eyecite/tokenizers.py", "                    except hyperscan.error:", "                    except hyperscan.InvalidError:", ["C14"]),
     ("hs-no-section-conversion", "eyecite/tokenizers.py", "                if long_chars:\n", "                if False:\n", ["C14"]),
-    ("hs-search-instead-of-match", "eyecite/tokenizers.py", "                m = extractor.compiled_regex.match(text, start)\n", "                m = extractor.compiled_regex.search(text, start)\n", ["C14"]),
     ("hs-cache-no-fallback", "eyecite/tokenizers.py", "                    except hyperscan.error:\n", "                    except hyperscan.DatabaseVersionError:\n", ["C14"]),
 ]
 
